@@ -2,6 +2,7 @@ package vh
 
 import (
 	"crypto/sha256"
+	"fmt"
 	"encoding/json"
 )
 
@@ -58,7 +59,7 @@ func (b *BFS[E]) Explore() (int, int, bool) {
 		}
 		if b.R.OutOfBudget() {
 			closed = false
-			b.R.Cap(b.Label + ": time budget")
+			b.R.Cap("time budget (BFS stopped early)")
 			break
 		}
 		for _, e := range it.enabled {
@@ -82,14 +83,14 @@ func (b *BFS[E]) Explore() (int, int, bool) {
 			}
 			if b.MaxStates > 0 && states >= b.MaxStates {
 				closed = false
-				b.R.Cap(b.Label + ": state cap")
+				b.R.Cap("state cap")
 				frontier = nil
 				break
 			}
 		}
 	}
 	if !closed && b.MaxDepth > 0 {
-		b.R.Cap(b.Label + ": depth bound")
+		b.R.Cap(fmt.Sprintf("depth bound %d (BFS did not close)", b.MaxDepth))
 	}
 	b.R.States(states)
 	b.R.Transitions(trans)
